@@ -237,17 +237,47 @@ theorem wrap_history_transparent_exact (k : WKind) (n m : Nat) (subs : List SubO
   cases q <;> simp [Query.unique] at hq <;> cases a <;> simp [answerOk] at ha <;> cases b <;> simp [answerOk] at hb <;>
     simp_all
 
-/-- Where the Lanczos side write lands (code as it is): `BatchRepeat(Dense).root_inv_decomposition()` in the Lanczos regime
-writes `root_decomposition||` into the BASE operator's cache, not into the wrapper's; for ConstantMul it is the wrapper's. -/
+/-- Where the Lanczos side write lands (code as it is, /repo 055dd58): `BatchRepeat(Dense).root_inv_decomposition()` in the Lanczos regime
+writes `root_decomposition||` into the BASE operator's cache, not into the wrapper's; since c4c33aa the same holds for ConstantMul (constant > 0):
+its memoised override asks the base operator for `root_inv_decomposition(initial_vectors=None, test_vectors=None, method=None)` by keyword,
+so the wrapper holds only its own `root_inv_decomposition||` entry and the base holds the side-written root and the keyword-keyed inverse root. -/
 theorem wrap_side_write_location :
     let sub : SubObj := ⟨Profile.base, 4, 2, ⟨[], 0, []⟩⟩
     let σ : Settings := ⟨1, true, true, true⟩
     let r := (wStep .batchRepeat σ 4 1 (.self (.rootInv .noargs)) (wFresh [sub])).1
     let c := (wStep .constMul σ 4 1 (.self (.rootInv .noargs)) (wFresh [sub])).1
     r.self.cache.map (·.1) = [rootInvKey .noargs] ∧ r.subs.map (fun o => o.st.cache.map (·.1)) = [[rootKey .noargs]] ∧
+    c.self.cache.map (·.1) = [rootInvKey .noargs] ∧
+    c.subs.map (fun o => o.st.cache.map (·.1)) = [[rootKey .noargs, rootInvKey (kwRootInv .noargs)]] := by
+  decide
+
+/-- The OLD ConstantMul (before c4c33aa; `Hooks.constMulBefore_c4c33aa`, not what the driver runs): `root_inv_decomposition` was the base-class
+method ON THE WRAPPER — the Lanczos side write landed in the wrapper's cache and the base operator was not asked at all, so the wrapper's root
+(scaled root of the base, override) and inverse root (own decomposition of the scaled matrix) came from different factorizations. -/
+theorem previous_constMul_side_write_location :
+    let sub : SubObj := ⟨Profile.base, 4, 2, ⟨[], 0, []⟩⟩
+    let σ : Settings := ⟨1, true, true, true⟩
+    let c := (wRun (Hooks.constMulBefore_c4c33aa σ 1) σ 4 1 (.self (.rootInv .noargs)) (wFresh [sub])).1
     c.self.cache.map (·.1) = [rootKey .noargs, rootInvKey .noargs] ∧ c.subs.map (fun o => o.st.cache.map (·.1)) = [[]] := by
   decide
 
+/-- After c4c33aa (code as it is, `decide`; tied by the key-set correspondence on `ConstantMul(Dense)`): root and inverse root of a ConstantMul operator
+are BOTH assembled from the base operator's factors and carry their provenance — with a deterministic method they are an exact mutually inverse pair
+(`paired`), which is the hypothesis `L P = 1` of `transplant_valid_lowrank` for `add_low_rank` / `cat_rows` on the scaled operator (what D34 and the C18
+finding violated before the fix).  In the Lanczos regime the base operator still runs Lanczos twice (D30 stays open): not paired. -/
+theorem constMul_roots_from_base :
+    let sub : SubObj := ⟨Profile.base, 4, 2, ⟨[], 0, []⟩⟩
+    let df : Settings := ⟨800, true, true, true⟩
+    let sm : Settings := ⟨1, true, true, true⟩
+    let sym : Call := ⟨[], [("method", .str "symeig")]⟩
+    let a := wStep .constMul df 4 1 (.self (.root sym)) (wFresh [sub])
+    let b := wStep .constMul df 4 1 (.self (.rootInv sym)) a.1
+    let a' := wStep .constMul sm 4 1 (.self (.root .kwNone)) (wFresh [sub])
+    let b' := wStep .constMul sm 4 1 (.self (.rootInv .kwNone)) a'.1
+    paired a.2 b.2 = true ∧ valMat a.2 = 1 ∧ valMat b.2 = 1 ∧
+    b.1.subs.map (fun o => o.st.cache.map (·.1)) = [[rootKey sym, rootInvKey (kwRootInv sym)]] ∧
+    paired a'.2 b'.2 = false := by
+  decide
 
 /-! ### extension session 5: KroneckerProductLinearOperator (n-ary) in the wrapper state machine; settings at query time
 
